@@ -2,8 +2,7 @@ package main
 
 // Direction-specific stalls: the proxy between the two daemons holds the bytes going from the
 // remote node towards the submitting node for 300-900 ms at a time and then releases everything
-// it holds in ONE write — or, every other time, loses it, so that the remote node retransmits —
-// again and again while several transfers run, so that the answer to a
+// it holds in ONE write, again and again while several transfers run, so that the answer to a
 // `work results` request (header line, and a quarter of a second later the first output) reaches
 // the mirror in one piece.  Oracle as everywhere.
 
@@ -19,10 +18,10 @@ import (
 	. "verifharness/lib"
 )
 
-// HoldFor makes the proxy keep the remote->local traffic back for d from now; with lose the
-// messages (2-byte length framed, as the TCP backend sends them) are dropped instead of kept —
-// a lossy link: the remote node's QUIC stack then retransmits, and a retransmission carries the
-// header line of a results stream together with the output that has become available since.
+// HoldFor makes the proxy keep the remote->local traffic back for d from now (whole messages,
+// 2-byte length framed as the TCP backend sends them).  With lose they are dropped instead — a
+// lossy link; not used by the scenarios: on the unchanged tree a transfer over a link that loses
+// everything for most of the time can take longer than the observation window.
 func (p *tcpProxy) HoldFor(d time.Duration, lose bool) {
 	p.mu.Lock()
 	p.holdUntil = time.Now().Add(d)
@@ -160,7 +159,7 @@ func runStalls(c *Ctx, sh *shared, dir string) {
 			case <-time.After(time.Duration(40+rng.Intn(160)) * time.Millisecond):
 			}
 			d := time.Duration(300+rng.Intn(600)) * time.Millisecond
-			px.HoldFor(d, stalls%2 == 1) // alternately: held and released in one write / lost
+			px.HoldFor(d, false)
 			stalls++
 			select {
 			case <-stop:
